@@ -361,3 +361,23 @@ func (a *A) writeEvidence(verifDir string, meta propMeta, t0 time.Time, obligati
 		infra("write evidence: %v", err)
 	}
 }
+
+// clean: every decided instance holds (known findings aside).
+func (a *A) clean(verifDir string) bool {
+	kfs := loadKnownFindings(verifDir)
+	for _, o := range a.Obs {
+		if o.Status == "holds" || o.Status == "info" {
+			continue
+		}
+		known := false
+		for _, k := range kfs {
+			if k.Prop == a.Prop && k.Key == o.Rule+"/"+o.Key {
+				known = true
+			}
+		}
+		if !known {
+			return false
+		}
+	}
+	return true
+}
